@@ -1,29 +1,39 @@
 (* Properties_C07.v -- property C07: iv_main returns iff nothing is registered or quit; never hangs or spins.  Statements only.
    Every theorem quantifies over ALL well-formed scenarios: all handler scripts, all kernel behaviours the scenario
-   language can express, all four poll methods, all fault sets, any wait limit.
-   STATUS: the full statement of this property on the core model is `mon_C07 (run_scenario sc) = true`
-   (see Properties_C07.v.draft); the theorems below are the monitor clauses already proved (named _partial);
-   the remaining clauses (711, 1103: no busy polling) are checked on every implementation AND model trace by the extracted monitor
-   while their proofs are being completed. *)
-From Coq Require Import List ZArith Bool.
-From Ivv Require Import Core.Kernel Core.CoreTypes Core.CoreFd Core.CoreModel Core.Monitors Core.CoreSpec
-  Core.CoreRel Core.CoreCodes Core.CoreCodes2.
+   language can express (conditions changed at any point, ready order rotations, external posts), all four poll
+   methods, all fault sets (EINTR at any wait / epoll_ctl, missing system calls), any wait limit. *)
+From Coq Require Import List ZArith Bool Lia.
+From Ivv Require Import Core.Kernel Core.CoreTypes Core.CoreFd Core.CoreModel Core.Monitors Core.GuardMon Core.CoreSpec
+  Core.CoreInv Core.CoreRel Core.CorePhase2AcctC07 Core.CorePhase2AcctIdleTop Core.CoreExamples.
 Import ListNotations.
 Local Open Scope Z_scope.
 
-(* callbacks only inside iv_main (709); the quit flag reported at return is the tracked one (703); the loop does not
-   enter a wait after iv_quit (704) *)
-Theorem C07_quit_and_nesting_partial :
-  forall sc, wf_scenario sc -> no_code [703; 704; 709] (mon_fails (run_scenario sc)).
-Proof. intros sc Hwf. eapply no_code_sub; [|exact (codes_handlers sc Hwf)]. simpl; intros c Hc; intuition. Qed.
-Print Assumptions C07_quit_and_nesting_partial.
+Definition no_code (codes : list Z) (tr : list Z) : Prop := forall c, In c tr -> ~ In c codes.
 
-(* iv_main returns only when quit was called or nothing is registered, and with nothing registered it does return
-   (701/702: the end record's object count is the tracked one and is 0 unless quit); the loop never sleeps or hangs with
-   nothing registered (705); the object accounting is balanced at tear-down (706); a wait entered while a timer is due
-   or a task is pending does not block (708/710); a wait that reports a ready user descriptor is followed by a callback before
-   the next wait (707) *)
-Theorem C07_termination_and_progress_partial :
-  forall sc, wf_scenario sc -> no_code [701; 702; 705; 706; 707; 708; 710] (mon_fails (run_scenario sc)).
-Proof. exact codes_acct. Qed.
-Print Assumptions C07_termination_and_progress_partial.
+(* returns only when quit or nothing registered (701/702/703), continues only when not quit and something is
+   registered (704/705), accounting returns to zero after tear-down (706), a reported descriptor leads to a
+   callback (707), never sleeps with an undelivered self-post (708/710), callbacks only inside iv_main (709),
+   never polls repeatedly without dispatching (711, guard monitor 1103) *)
+Theorem C07_main_loop :
+  forall sc, wf_scenario sc -> mon_C07 (run_scenario sc) = true.
+Proof. exact core_mon_C07. Qed.
+Print Assumptions C07_main_loop.
+
+Theorem C07_no_busy_poll :
+  forall sc, wf_scenario sc -> no_code [1103] (gmon_fails sc (run_scenario sc)).
+Proof. exact core_gmon_1103. Qed.
+Print Assumptions C07_no_busy_poll.
+
+(* non-vacuity: a well-formed run on every poll method that registers every kind of object, sleeps until a timer is
+   due, dispatches, and returns from iv_main exactly when the last object has been unregistered (TEnd 0 0: not quit,
+   object count 0) *)
+Example C07_nonvacuous :
+  forall be, In be [0; 1; 2; 3] ->
+    wf_scenario (ex_all be) /\ In (TEnd 0 0) (run_scenario (ex_all be)) /\ ~ In TLimit (run_scenario (ex_all be)) /\
+    ~ In THang (run_scenario (ex_all be)) /\ mon_fails (run_scenario (ex_all be)) = [].
+Proof.
+  intros be H. assert (Hb : 0 <= be <= 3) by (cbn [In] in H; intuition lia).
+  pose proof (ex_all_runs be H) as R. cbv zeta in R.
+  destruct R as (_ & _ & _ & _ & _ & R6 & _ & R8 & R9 & R10 & _).
+  exact (conj (ex_all_wf be Hb) (conj R6 (conj R8 (conj R9 R10)))).
+Qed.
